@@ -67,3 +67,20 @@ Proof.
   pose proof (rest_full sp Hsp wp Hwp e o Hw) as Hf.
   destruct o; try exact I; unfold full in Hf; intros Hne; rewrite (Hf Hne); congruence.
 Qed.
+
+(* ---- the fork-memory registry: closing one runner never takes away the entry of another *)
+Theorem registry_close_own ops : forall reg opened, (forall u, In u opened -> In u reg) ->
+  forks_ok CloseOwn reg opened ops = true.
+Proof.
+  induction ops as [|o ops IH]; intros reg opened Inv; [reflexivity|].
+  destruct o as [u|u|u]; cbn [forks_ok rstep].
+  - apply IH. intros v [<-|Hv]; [left; reflexivity|].
+    apply In_remove1 in Hv. destruct Hv as [Hv Hne]. right. apply In_remove1. split; [now apply Inv|exact Hne].
+  - apply IH. intros v Hv. apply In_remove1 in Hv. destruct Hv as [Hv Hne]. apply In_remove1. split; [now apply Inv|exact Hne].
+  - rewrite (IH reg opened Inv), andb_true_r.
+    destruct (mem u opened) eqn:Ho; [|reflexivity]. cbn [negb orb].
+    apply mem_In. apply Inv. now apply mem_In.
+Qed.
+
+Theorem registry_close_all_refuted : exists ops, forks_ok CloseAll [] [] ops = false.
+Proof. exists [ROpen 1; ROpen 2; RClose 2; RFork 1]. reflexivity. Qed.
